@@ -12,6 +12,9 @@ BACKENDS = [("c", False), ("c", True), ("cpp", False), ("cpp", True), ("rust", F
 def gen_case(rng, k):
     fs, _ = gen.gen_fileset(rng, nfiles=rng.choice([2, 3]), nstructs=rng.randint(3, 5), nifaces=rng.randint(2, 4),
                             allow_obj_struct=(k % 3 != 0))
+    if k % 2 == 1:
+        # interfaces that name interfaces declared further down in the same file
+        gen.add_forward_refs(rng, fs, prob=0.8)
     sibling = None
     if k % 2 == 0:
         cands = [f["path"] for f in fs["files"] if f["path"] != fs["main"]]
